@@ -50,7 +50,8 @@ func (in *slInst) applyMacro(op string) bool {
 	return in.apply(op)
 }
 
-func c12Window(in *slInst) (uint64, uint64) { return ledger.VerifJournalRange(in.l) }
+// c12Window: the reference window (kept by the harness), not the ledger's own numbers.
+func c12Window(in *slInst) (uint64, uint64) { return in.wmin, in.wmax }
 
 func c12Apply(c *mc.Ctx, in *slInst, op string, path []string) (bool, bool) {
 	f := strings.Fields(op)
@@ -106,7 +107,7 @@ func c12Apply(c *mc.Ctx, in *slInst, op string, path []string) (bool, bool) {
 	if got := ledger.VerifPrevJournalHash(in.l).String(); got != want {
 		c.Report("C12|root-chain-not-restored", fmt.Sprintf("after rollback to %d the running root is %s, block %d's root was %s", t, got, t, want), rep)
 	}
-	if _, mx := c12Window(in); mx != t {
+	if _, mx := ledger.VerifJournalRange(in.l); mx != t {
 		c.Report("C12|version-not-restored", fmt.Sprintf("after rollback to %d Version()=%d", t, mx), rep)
 	}
 	// stash the original suffix for the re-execution oracle in Check
@@ -200,23 +201,28 @@ func C12(c *mc.Ctx) {
 	n := len(long)
 	for t := 0; t <= n+1; t++ {
 		for _, second := range []int{-1, 0, n - 11, n - 10, n - 5} {
-			in := newSLInst()
-			var path []string
-			for _, bn := range long {
-				path = append(path, "blk "+bn)
+			for _, reopen := range []bool{false, true} {
+				in := newSLInst()
+				var path []string
+				for _, bn := range long {
+					path = append(path, "blk "+bn)
+				}
+				if reopen {
+					path = append(path, "reopen")
+				}
+				path = append(path, fmt.Sprintf("rollback %d", t))
+				if second >= 0 {
+					path = append(path, fmt.Sprintf("rollback %d", second), "blk over")
+				}
+				for i, op := range path {
+					c12Apply(c, in, op, path[:i+1])
+				}
+				c12Check(c, in, path)
+				c.Add("long_history_cases", 1)
 			}
-			path = append(path, fmt.Sprintf("rollback %d", t))
-			if second >= 0 {
-				path = append(path, fmt.Sprintf("rollback %d", second), "blk over")
-			}
-			for i, op := range path {
-				c12Apply(c, in, op, path[:i+1])
-			}
-			c12Check(c, in, path)
-			c.Add("long_history_cases", 1)
 		}
 	}
-	c.Set("rule", "BFS over histories of committed blocks (creations, overwrites, deletions, delete+recreate, AddState, code, balance/nonce, touch-only, empty, empty value, second account, in-block snapshot/revert) with rollback(t) for every t in 0..head+1, repeated rollbacks, other continuations and reopen; plus a 13-block history crossing the 10-block journal window with every rollback target and second rollbacks")
+	c.Set("rule", "BFS over histories of committed blocks (creations, overwrites, deletions, delete+recreate, AddState, code, balance/nonce, touch-only, empty, empty value, second account, in-block snapshot/revert) with rollback(t) for every t in 0..head+1, repeated rollbacks, other continuations and reopen; plus a 13-block history crossing the 10-block journal window with every rollback target and second rollbacks, with and without a reopen before the rollback; the retained window (last 10 committed heights) is the harness's own bookkeeping, not read from the ledger")
 	c.Assume("memkv has goleveldb's observable semantics")
 	if c.Get("rollbacks_effective") == 0 || c.Get("reexecuted_blocks") == 0 {
 		c.HarnessError("vacuous: no effective rollback / re-execution explored")
